@@ -26,6 +26,7 @@ import (
 	"github.com/idena-network/idena-go/blockchain/types"
 	"github.com/idena-network/idena-go/blockchain/validation"
 	"github.com/idena-network/idena-go/common"
+	"github.com/idena-network/idena-go/config"
 	"github.com/idena-network/idena-go/core/state"
 	"github.com/idena-network/idena-go/core/validators"
 	"github.com/idena-network/idena-go/core/appstate"
@@ -40,6 +41,8 @@ type c10hcase struct {
 	Seed   int64  `json:"seed"`
 	Users  int    `json:"users"`
 	Blocks int    `json:"blocks"`
+	World  string `json:"world,omitempty"`  // "epochs": survivable genesis states (Human/Suspended/Zombie/Newbie/Candidate), 14-minute epochs with consistent ceremony plans: three validations per history, non-validated identities delegate before their validation
+	Resets bool   `json:"resets,omitempty"` // the node rolls back (chain.ResetTo, as the fork resolver / integrity recovery do) across delegation-switch blocks and at random
 	Script string `json:"script,omitempty"` // "identityless-pool": one or two validated identities delegate to a funded address without identity record, which goes online; then the ceremonies decide
 }
 
@@ -56,6 +59,7 @@ type c10hrun struct {
 	byNat  map[uint32]common.Address
 	lean   bool // addresses embed injectively into uint32: emit model lines
 	failed map[string]bool
+	resets int
 	chk    *appstate.AppState // long-lived check state, maintained the way the sync / fork-validation paths do
 	prev   *types.Header
 	kills  int
@@ -295,6 +299,9 @@ func (x *c10hrun) offer(b int) {
 			x.c.Hit("offer-ok:" + what)
 		} else {
 			x.c.Hit("offer-rej:" + what)
+			if strings.HasPrefix(what, "delegate-before") {
+				x.c.Hit("offer-rej:" + what + ":" + err.Error())
+			}
 		}
 	}
 	if b == 2 {
@@ -320,6 +327,21 @@ func (x *c10hrun) offer(b int) {
 			}
 		}
 		return
+	}
+	// directed (multi-epoch world): identities that are not validated yet (Candidate / Suspended / Zombie: no registry
+	// entry) delegate before their validation; the epoch pass alone can put that delegation into the registry
+	if x.cs.World == "epochs" && b >= 3 && b <= 16 {
+		for i := 1; i <= nU; i++ {
+			ids := n.App.State.GetIdentityState(w.Addrs[i])
+			if !ids.NewbieOrBetter() && n.App.State.Delegatee(w.Addrs[i]) == nil && n.App.State.DelegationSwitch(w.Addrs[i]) == nil &&
+				!n.App.ValidatorsCache.IsPool(w.Addrs[i]) && r.Intn(3) == 0 {
+				pools := []int{0, 0, 1, 2, 7}
+				to := w.Addrs[pools[r.Intn(len(pools))]]
+				if n.App.State.Delegatee(to) == nil && n.App.State.DelegationSwitch(to) == nil {
+					send(i, "delegate-before-validation", &types.Transaction{Type: types.DelegateTx, To: &to})
+				}
+			}
+		}
 	}
 	// directed: a go-online request left pending, then the same identity kills itself before the next status-switch
 	// block (StatusSwitchRange = 3): both txs go into the next block (height % 3 == 1) or the kill one block later
@@ -527,12 +549,84 @@ func (x *c10hrun) checkReused(blk *types.Block, addrs []common.Address) {
 	}
 }
 
+func (x *c10hrun) allAddrs(tree map[common.Address]c10entry) []common.Address {
+	set := map[common.Address]bool{}
+	for _, a := range x.w.Addrs {
+		set[a] = true
+	}
+	for _, a := range x.xaddrs {
+		set[a] = true
+	}
+	for a := range tree {
+		set[a] = true
+	}
+	for _, a := range x.byNat {
+		set[a] = true
+	}
+	var addrs []common.Address
+	for a := range set {
+		addrs = append(addrs, a)
+	}
+	sort.Slice(addrs, func(i, j int) bool { return strings.Compare(string(addrs[i][:]), string(addrs[j][:])) < 0 })
+	return addrs
+}
+
+// rollback: chain.ResetTo (fork resolver switching branches, EnsureIntegrity, full-sync error recovery) reloads the
+// node's long-lived cache IN PLACE; it must then answer like a cache rebuilt from the restored state.
+func (x *c10hrun) rollback(target uint64) (map[common.Address]c10entry, error) {
+	n := x.h.N
+	from := n.Chain.Head.Height()
+	if _, err := n.Chain.ResetTo(target); err != nil {
+		return nil, err
+	}
+	x.resets++
+	x.h.Height = int(target)
+	x.c.Hit(fmt.Sprintf("rollback:depth-%d", from-target))
+	tree := x.tree()
+	fresh := validators.NewValidatorsCache(n.App.IdentityState, n.App.State.GodAddress())
+	fresh.Load()
+	addrs := x.allAddrs(tree)
+	a1 := c10hSnapshot(n.App.ValidatorsCache, addrs, n.Chain.Head)
+	a2 := c10hSnapshot(fresh, addrs, n.Chain.Head)
+	x.c.Hit("oracle:cache-after-rollback evaluated")
+	if a1 != a2 {
+		x.fail("C10:cache-after-rollback-differs-from-rebuild", fmt.Sprintf("ResetTo(%d) from height %d: the node's reloaded validator view differs from a rebuild of the restored state:\n  node's cache %s\n  rebuilt      %s", target, from, a1, a2))
+	}
+	if chk, err := n.App.ForCheckWithOverwrite(target); err == nil {
+		x.chk, x.prev = chk, n.Chain.Head
+	} else {
+		x.chk = nil
+	}
+	// new synchronisation point with the model
+	var gen []c10diffval
+	for a, e := range tree {
+		gen = append(gen, c10diffval{addr: c10hNat(a), e: e})
+	}
+	sort.Slice(gen, func(i, j int) bool { return gen[i].addr < gen[j].addr })
+	x.line("new", "ok")
+	x.line("adddiff "+c10showDiff(gen), "ok")
+	x.line("load inc", "ok")
+	return tree, nil
+}
+
 func c10hOpts(cs c10hcase) chainfx.HistoryOpts {
 	o := chainfx.HistoryOpts{Blocks: cs.Blocks, ShortEpochs: true, TxPerBlock: 2, WithFlips: cs.Seed%3 != 0}
+	if cs.World == "epochs" {
+		return chainfx.HistoryOpts{Blocks: cs.Blocks, TxPerBlock: 2, WithFlips: true, MoreFlips: true, Always: map[int]bool{0: true}}
+	}
 	if cs.Script == "identityless-pool" {
 		o.WithFlips, o.TxPerBlock = true, 1
 	}
 	return o
+}
+
+func before0(prev map[common.Address]c10entry, byNat map[uint32]common.Address, n uint32) (c10entry, bool) {
+	a, ok := byNat[n]
+	if !ok {
+		return c10entry{}, false
+	}
+	e, ok := prev[a]
+	return e, ok
 }
 
 func fresh0IsPool(m map[common.Address]bool, a common.Address) bool { return m[a] }
@@ -540,6 +634,13 @@ func fresh0IsPool(m map[common.Address]bool, a common.Address) bool { return m[a
 func c10hRun(c *hx.Ctx, cs c10hcase) error {
 	r := rand.New(rand.NewSource(cs.Seed))
 	w := chainfx.NewWorld(cs.Seed, cs.Users, 0, time.Date(2030, 1, 1, 0, 0, 0, 0, time.UTC))
+	if cs.World == "epochs" {
+		w = chainfx.NewWorldStates(cs.Seed, cs.Users, 0, time.Date(2030, 1, 1, 0, 0, 0, 0, time.UTC), state.Human,
+			[]state.IdentityState{state.Human, state.Human, state.Suspended, state.Zombie, state.Newbie, state.Candidate, state.Human, state.Suspended, state.Candidate, state.Newbie})
+		w.Opts.Validation = &config.ValidationConfig{ValidationInterval: 14 * time.Minute, FlipLotteryDuration: 2 * time.Minute,
+			ShortSessionDuration: time.Minute, LongSessionDuration: 2 * time.Minute}
+		w.Opts.FirstCeremony = w.T0.Add(8 * time.Minute).Unix()
+	}
 	h, err := chainfx.Bootstrap(w, c10hOpts(cs), r, true)
 	if err != nil {
 		return err
@@ -573,6 +674,11 @@ func c10hRun(c *hx.Ctx, cs c10hcase) error {
 	} else {
 		x.fail("C10H:history-broken", "ForCheckWithOverwrite: "+err.Error())
 	}
+	type hinfo struct {
+		epoch uint16
+		none  bool
+	}
+	hist := map[uint64]hinfo{}
 	for b := 1; b <= cs.Blocks; b++ {
 		x.offer(b)
 		blk, err := x.step(b)
@@ -622,6 +728,7 @@ func c10hRun(c *hx.Ctx, cs c10hcase) error {
 			c.Hit("blocks:identity-update")
 		}
 		tree = x.tree()
+		delegChanged := false
 		diff := h.N.Chain.GetIdentityDiff(blk.Height())
 		if diff != nil && len(diff.Values) > 0 {
 			c.Hit("blocks:non-empty-identity-diff")
@@ -649,6 +756,12 @@ func c10hRun(c *hx.Ctx, cs c10hcase) error {
 				}
 				vals = append(vals, dv)
 			}
+			for _, v := range vals {
+				old, had := before0(prevTree, x.byNat, v.addr)
+				if (!v.deleted && v.e.deleg >= 0 && (!had || old.deleg != v.e.deleg)) || (had && old.deleg >= 0 && (v.deleted || v.e.deleg != old.deleg)) {
+					delegChanged = true
+				}
+			}
 			if !c10diffWF(vals) {
 				c.Hit("blocks:nonWF-diff")
 				x.fail("C10H:chain-emitted-nonWF-diff", fmt.Sprintf("height %d: %s", blk.Height(), c10showDiff(vals)))
@@ -675,6 +788,27 @@ func c10hRun(c *hx.Ctx, cs c10hcase) error {
 			x.queryLines(x.view(fresh, nil), x.universe(tree))
 		}
 		x.check(blk, fresh, tree)
+		hist[blk.Height()] = hinfo{h.N.App.State.Epoch(), h.N.App.State.ValidationPeriod() == state.NonePeriod}
+		if cs.Resets && x.resets < 4 && b > 5 && b < cs.Blocks-3 && hist[blk.Height()].none && ((delegChanged && r.Intn(2) == 0) || r.Intn(30) == 0) {
+			target := blk.Height() - uint64(1+r.Intn(3))
+			ok := target >= 2
+			for hh := target; ok && hh <= blk.Height(); hh++ {
+				if i, seen := hist[hh]; !seen || !i.none || i.epoch != hist[blk.Height()].epoch {
+					ok = false
+				}
+			}
+			if ok {
+				if delegChanged {
+					c.Hit("rollback:across-delegation-change")
+				}
+				t2, err := x.rollback(target)
+				if err != nil {
+					x.fail("C10H:history-broken", "ResetTo: "+err.Error())
+					break
+				}
+				tree = t2
+			}
+		}
 		prevTree = tree
 		prevPools = map[common.Address]bool{}
 		for _, e := range tree {
@@ -716,8 +850,14 @@ func init() {
 			if c.Tier == "thorough" {
 				cs.Blocks = 260
 			}
-			if i%5 == 4 {
+			switch i % 5 {
+			case 4:
 				cs.Script, cs.Blocks = "identityless-pool", 90
+			case 1, 3:
+				cs.World, cs.Users, cs.Blocks = "epochs", 10, 135 // three ceremonies (blocks ~42, ~84, ~126)
+				cs.Resets = i%5 == 3
+			case 0, 2:
+				cs.Resets = true
 			}
 			if err := c10hRun(c, cs); err != nil {
 				return err
